@@ -227,15 +227,41 @@ def _splitter_body(fi):
 END = object()
 
 
+STR_METHODS = (".join", ".strip", ".lstrip", ".rstrip", ".replace", ".format", ".lower", ".upper", ".title", ".removeprefix", ".removesuffix", "str", "repr",
+               "re.sub", "re.escape")
+
+
+def _is_str_term(t) -> bool:
+    """The term is known to denote a str (so str(t) is t)."""
+    if not isinstance(t, tuple) or not t:
+        return False
+    if is_const(t):
+        return isinstance(t[1], str)
+    if t[0] == "fstr":
+        return True
+    if t[0] == "call" and t[1] in STR_METHODS:
+        return True
+    if t[0] == "binop" and t[1] == "Add":
+        return _is_str_term(t[2]) or _is_str_term(t[3])
+    if t[0] == "cond":
+        return _is_str_term(t[2]) and _is_str_term(t[3])
+    return False
+
+
 def _str_parts(t):
     """Flatten a string concatenation term into parts, merging adjacent constants."""
     def parts(x):
         if x[0] == "binop" and x[1] == "Add":
             return parts(x[2]) + parts(x[3])
+        if x[0] == "call" and x[1] == "str" and len(x[2]) == 1 and not x[3] and _is_str_term(x[2][0]):
+            return parts(x[2][0])          # str() of a string is that string
+        if x[0] == "call" and x[1] == "str" and len(x[2]) == 1 and not x[3] and is_const(x[2][0]) and isinstance(x[2][0][1], int) \
+                and not isinstance(x[2][0][1], bool):
+            return [const(str(x[2][0][1]))]     # str(0) is '0'
         if x[0] == "fstr":
             out_ = []
             for p_ in x[1]:
-                out_ += parts(p_) if (is_const(p_) and isinstance(p_[1], str)) else [("call", "str", (p_,), ())]
+                out_ += parts(p_) if _is_str_term(p_) else parts(("call", "str", (p_,), ()))
             return out_
         if x[0] == "call" and x[1] == ".join" and len(x[2]) == 2 and is_const(x[2][0]) and isinstance(x[2][0][1], str) and x[2][1][0] == "tuple":
             # sep.join((a, b, c)) over a display: the pieces in order, the separator between them
@@ -274,20 +300,36 @@ def _enum_start(v, rowp):
     return start[1] if is_const(start) and isinstance(start[1], int) and len(v[2]) <= 2 else None
 
 
-def splitter_table():
-    """Finite-class abstract interpretation of split_table_cells' loop body: one abstract run per
-    (first_cell state, character-class sequence).  Returns (rows, problems, fi)."""
-    I = new_interp()
-    q = N.SPLITTER_Q
-    fi = I.facts.func(q)
-    loop = _splitter_body(fi)
-    problems = []
-    is_for = isinstance(loop, ast.For)
-    if loop is None or loop.orelse or (not is_for and not (isinstance(loop.test, ast.Constant) and loop.test.value is True)):
-        return None, ["split_table_cells is not a single character loop ('while True' over next(it, None), or 'for c in it')"], fi
-    post = fi.node.body[fi.node.body.index(loop) + 1:]
-    late_yield = any(isinstance(x, (ast.Yield, ast.YieldFrom)) for p_ in post for x in ast.walk(p_))
-    # pre-loop initialisation
+def _lexer_of(I, fi, loop):
+    """The repo generator the splitter's for loop runs over, called on the row alone (a two-stage splitter: the generator
+    breaks the row into pieces, the loop assembles the cells) -- or None."""
+    if not isinstance(loop, ast.For) or not isinstance(loop.iter, ast.Call) or loop.iter.keywords or len(loop.iter.args) != 1:
+        return None
+    arg = loop.iter.args[0]
+    params = fi.params()
+    if not (isinstance(arg, ast.Name) and params and arg.id == params[-1]):
+        return None
+    f = loop.iter.func
+    g = None
+    if isinstance(f, ast.Name):
+        r = I.facts.resolve_name(fi.module, f.id)
+        if r and r[0] == "func":
+            g = r[1]
+    elif isinstance(f, ast.Attribute) and isinstance(f.value, ast.Name):
+        c = None
+        if f.value.id in ("self", "cls") and fi.cls is not None:
+            c = fi.cls
+        else:
+            c = I.facts.resolve_class(fi.module, f.value.id)
+        if c is not None:
+            g = c.find_method(f.attr)
+    if g is None or not any(isinstance(x, (ast.Yield, ast.YieldFrom)) for x in ast.walk(g.node)):
+        return None
+    return g
+
+
+def _stage_init(fi, loop):
+    """Abstract values of the locals when the loop of generator ``fi`` is first reached."""
     pre_I = new_interp()
     pre_state = State()
     params = fi.params()
@@ -295,12 +337,48 @@ def splitter_table():
     pre_state.env[params[-1]] = rowp
     act = Activation(fi, 0)
     pre_I.stack.append(act)
-    pre_tree: list = []
     pre_stmts = fi.node.body[: fi.node.body.index(loop)]
     pre_stmts = [s for s in pre_stmts if not (isinstance(s, ast.Expr) and isinstance(s.value, ast.Constant))]
-    pre_I.exec_block(pre_stmts, pre_state, pre_tree)
+    pre_I.exec_block(pre_stmts, pre_state, [])
     pre_I.stack.pop()
-    init = dict(pre_state.env)
+    return pre_I, act, rowp, dict(pre_state.env)
+
+
+def splitter_table():
+    """Finite-class abstract interpretation of split_table_cells' loop body: one abstract run per
+    (first_cell state, character-class sequence).  Returns (rows, problems, fi).
+
+    A two-stage splitter (the loop runs over a generator of the repo that breaks the row into pieces) is interpreted the
+    same way: the character loop is the generator's, and the assembling loop's body runs once per piece it yields."""
+    I = new_interp()
+    q = N.SPLITTER_Q
+    fi = I.facts.func(q)
+    loop = _splitter_body(fi)
+    problems = []
+    NOT_LOOP = "split_table_cells is not a single character loop ('while True' over next(it, None), or 'for c in it')"
+    if loop is None or loop.orelse:
+        return None, [NOT_LOOP], fi
+    post = fi.node.body[fi.node.body.index(loop) + 1:]
+    late_yield = any(isinstance(x, (ast.Yield, ast.YieldFrom)) for p_ in post for x in ast.walk(p_))
+    lex = _lexer_of(I, fi, loop)
+    outer = None
+    if lex is not None:
+        # the assembling stage: its state, and the loop body run per piece
+        o_I, o_act, o_rowp, o_init = _stage_init(fi, loop)
+        o_init.pop(fi.params()[-1], None)
+        outer = (fi, loop, o_init)
+        cfi, cloop = lex, _splitter_body(lex)
+        if cloop is None or cloop.orelse:
+            return None, [NOT_LOOP], fi
+        cpost = lex.node.body[lex.node.body.index(cloop) + 1:]
+        late_yield = late_yield or any(isinstance(x, (ast.Yield, ast.YieldFrom)) for p_ in cpost for x in ast.walk(p_))
+    else:
+        cfi, cloop = fi, loop
+    is_for = isinstance(cloop, ast.For)
+    if not is_for and not (isinstance(cloop.test, ast.Constant) and cloop.test.value is True):
+        return None, [NOT_LOOP], fi
+    # pre-loop initialisation
+    pre_I, act, rowp, init = _stage_init(cfi, cloop)
     # variables: iterator, col, start_col, cell, first flag -- discovered by value
     it_vars = [k for k, v in init.items() if (v[0] == "call" and v[1] == "iter" and v[2] == (rowp,)) or _enum_start(v, rowp) is not None]
     if len(it_vars) != 1:
@@ -312,25 +390,33 @@ def splitter_table():
     if enum is not None:
         init[ENUM_COL] = const(enum - 1)
     seqs = [["|"], ["\\", "n"], ["\\", "|"], ["\\", "\\"], ["\\", "x"], ["\\", END], ["x"], ["n"], [END]]
-    flags = [k for k, v in init.items() if is_const(v) and isinstance(v[1], bool)]
-    if len(flags) != 1:
-        return None, [f"no single 'before the first pipe' boolean flag: {sorted(init)}"], fi
-    flag = flags[0]
-    before = init[flag][1]          # the flag's value while nothing but text before the first pipe was seen
     if is_for:
         pst = State(env=dict(init))
         pre_I.stack.append(act)
-        over = pre_I.ev(pst, loop.iter, [])
+        over = pre_I.ev(pst, cloop.iter, [])
         pre_I.stack.pop()
         if over != init[itv]:
             return None, ["the character loop does not run over the row iterator"], fi
+    # the state the cells are assembled in: the scanning stage's own locals, and the assembling stage's when there are two
+    state_init = dict(init)
+    if outer is not None:
+        clash = set(state_init) & set(outer[2])
+        if clash:
+            # the two stages are separate functions: same-named locals are different variables
+            return None, [f"two-stage splitter whose stages share local names: {sorted(clash)}"], fi
+        state_init.update(outer[2])
+    flags = [k for k, v in state_init.items() if is_const(v) and isinstance(v[1], bool)]
+    if len(flags) != 1:
+        return None, [f"no single 'before the first pipe' boolean flag: {sorted(state_init)}"], fi
+    flag = flags[0]
+    before = state_init[flag][1]          # the flag's value while nothing but text before the first pipe was seen
     rows = []
     for first in (True, False):
         for seq in seqs:
             I2 = new_interp()
             st = State()
             sym = {}
-            for k, v in init.items():
+            for k, v in state_init.items():
                 if k == itv:
                     st.env[k] = v
                 elif k == flag:
@@ -338,6 +424,12 @@ def splitter_table():
                 else:
                     sym[k] = ("param", k)
                     st.env[k] = ("param", k)
+            # a cell collected as a list of pieces (joined when complete) is the text the pieces spell: the list starts as
+            # "whatever was collected so far" and is read back as the concatenation of its content
+            list_vars = [k for k, v in state_init.items() if k not in (itv, flag) and isinstance(pre_I.obj(v), HList) and not pre_I.obj(v).segs] \
+                if outer is None else [k for k, v in outer[2].items() if k != flag and isinstance(o_I.obj(v), HList) and not o_I.obj(v).segs]
+            for k in list_vars:
+                st.env[k] = I2.new_list([("s", ("param", k))], None, None)
             feed = list(seq)
             calls = []
             taken = [0]
@@ -360,7 +452,7 @@ def splitter_table():
                     return default
                 return item_of(c)
             I2.builtin_hooks["next"] = next_hook
-            I2.stack.append(Activation(fi, 0))
+            I2.stack.append(Activation(cfi, 0))
             tree: list = []
             if is_for and feed[0] is END:
                 # the for loop ends when the iterator is exhausted: nothing of the body runs
@@ -368,19 +460,66 @@ def splitter_table():
                 out = Outcome(brk=st)
             else:
                 if is_for:
-                    I2.bind_target(st, loop.target, item_of(feed.pop(0)))
-                out = I2.exec_block(loop.body, st, tree)
+                    I2.bind_target(st, cloop.target, item_of(feed.pop(0)))
+                out = I2.exec_block(cloop.body, st, tree)
             I2.stack.pop()
             end = out.live or out.cont or out.brk
+            undecided = [n for n, _ in nf.iter_nodes(tree) if n[0] == "if"]
+            raises = [n for n, _ in nf.iter_nodes(tree) if n[0] == "raise"]
+            broke = out.brk is not None and out.live is None and out.cont is None
+            if outer is not None:
+                # the pieces of this stretch of the row, handed one by one to the assembling loop's body
+                pieces = [n[1] for n, _ in nf.iter_nodes(tree) if n[0] == "yield"]
+                tree = []
+                cur = end if end is not None else st
+                I2.stack.append(Activation(fi, 0))
+                for pc in pieces:
+                    if cur is None:
+                        break
+                    I2.bind_target(cur, loop.target, pc)
+                    o = I2.exec_block(loop.body, cur, tree)
+                    if o.brk is not None and o.live is None and o.cont is None:
+                        broke = True
+                        cur = o.brk
+                        break
+                    cur = o.live or o.cont or o.brk
+                I2.stack.pop()
+                end = cur
+                undecided += [n for n, _ in nf.iter_nodes(tree) if n[0] == "if"]
+                raises += [n for n, _ in nf.iter_nodes(tree) if n[0] == "raise"]
+
+            def as_text(t, I2=I2, tree=tree):
+                """list-of-pieces values and ''.join(list) as the string they spell"""
+                if not isinstance(t, tuple) or not t:
+                    return t
+                if t[0] == "call" and t[1] == ".join" and len(t[2]) == 2 and is_const(t[2][0], "") and isinstance(I2.obj(t[2][1]), HList):
+                    return as_text(t[2][1])
+                if t[0] == "ref" and isinstance(I2.obj(t), HList):
+                    parts_ = []
+                    for sg in nf.list_content(I2, t, tree):
+                        if sg[0] in ("s", "e"):
+                            parts_.append(as_text(sg[1]))
+                        else:
+                            return t
+                    out_ = const("")
+                    for p_ in parts_:
+                        out_ = p_ if out_ == const("") else ("binop", "Add", out_, p_)
+                    return out_
+                if t[0] == "tuple":
+                    return ("tuple", tuple(as_text(x) for x in t[1]))
+                return t
+            if end is not None:
+                for k in list_vars:
+                    if k in end.env:
+                        end.env[k] = as_text(end.env[k])
             if enum is not None and end is not None:
                 end.env[ENUM_COL] = ("binop", "Add", ("param", ENUM_COL), const(taken[0]))
-            yields = [n[1] for n, _ in nf.iter_nodes(tree) if n[0] == "yield"]
+            yields = [as_text(n[1]) for n, _ in nf.iter_nodes(tree) if n[0] == "yield"]
             if late_yield and seq[0] is END:
                 yields.append(("opaque", "yield after the loop"))
-            undecided = [n for n, _ in nf.iter_nodes(tree) if n[0] == "if"]
-            rows.append({"first": first, "seq": seq, "consumed": len(seq) - len(feed), "leftover": list(feed), "break": out.brk is not None and out.live is None and out.cont is None,
+            rows.append({"first": first, "seq": seq, "consumed": len(seq) - len(feed), "leftover": list(feed), "break": broke,
                          "env": dict(end.env) if end else {}, "yields": yields, "undecided": undecided, "I": I2, "sym": sym, "flag": flag, "before": before,
-                         "bare_next": [d for d in calls if d == ("nodefault",)], "raises": [n for n, _ in nf.iter_nodes(tree) if n[0] == "raise"]})
+                         "bare_next": [d for d in calls if d == ("nodefault",)], "raises": raises})
     return rows, problems, fi
 
 
@@ -511,7 +650,10 @@ def rule_split_init(rep: Report, rid="C04.cells", rid_trim=None) -> None:
         st.env[ENUM_COL] = const(es[0] - 1) if len(es) == 1 else NONE
     rep.eq(rid, "the column counter starts at 0 (nothing consumed)", const(0), st.env.get(colv), **kw)
     rep.eq(rid, "the first cell would start at column 1", const(1), st.env.get(startv), **kw)
-    rep.eq(rid, "the cell text starts empty", const(""), st.env.get(cellv), **kw)
+    cell0 = st.env.get(cellv)
+    if isinstance(I2.obj(cell0), HList) and not I2.obj(cell0).segs:
+        cell0 = const("")           # an empty list of pieces spells the empty text
+    rep.eq(rid, "the cell text starts empty", const(""), cell0, **kw)
     # table_cells
     I, fi2, tree, rv, st2 = _run(f"{LQ}.{N.TABLE_CELLS}")
     rep.used_function(fi2.qualname)
@@ -740,6 +882,11 @@ def rule_token(rep: Report, rid="C18.token") -> None:
     # the scanner's EOF token carries the empty string read at end of input, so only falsiness is a correct test
     rep.ob(rid, "Token.eof() is true exactly for the token without a line (the scanner's end-of-input token)", rv == forms[0],
            file=fi.file, line=fi.node.lineno, function=fi.qualname, expected="not self.line", found=fmt(rv, I))
+    # ... which presupposes that a scanned line is never false: the line class defines no truth value of its own
+    lcls = facts().cls(LQ)
+    odd = [f"{c.name}.{m}" for c in [lcls] + [x for x in facts().all_classes() if lcls in x.mro() and x is not lcls] for m in ("__bool__", "__len__") if m in c.methods]
+    rep.ob(rid, "a scanned line object is never false (GherkinLine defines neither __bool__ nor __len__), so only the end-of-input token is EOF", not odd,
+           file=LFILE, line=lcls.node.lineno if hasattr(lcls, "node") else None, function=LQ, expected="no __bool__ / __len__", found=odd or "none defined")
     I, fi, tree, rv, st = _run("gherkin.token.Token.__init__")
     rep.used_function(fi.qualname)
     p = fi.params()
